@@ -4,6 +4,7 @@ import (
 	"bytes"
 	"errors"
 	"fmt"
+	"reflect"
 	"runtime/debug"
 	"sort"
 	"strings"
@@ -340,8 +341,14 @@ func doProvide(rt *RT, sc scopeAPI, op Op, out *OpOut) error {
 		}
 		if o.CB && op.F != nil {
 			id := op.F.ID
+			cbPanic := o.CBPanic
 			popts = append(popts, dig.WithProviderCallback(func(ci dig.CallbackInfo) {
-				rt.Log = append(rt.Log, Event{Kind: EvCB, Op: rt.curOp, Fn: id, CBName: ci.Name, CBErr: ci.Error, CBRuntime: ci.Runtime})
+				rt.cbCalls[id]++
+				boom := cbPanic && rt.cbCalls[id] == 1
+				rt.Log = append(rt.Log, Event{Kind: EvCB, Op: rt.curOp, Fn: id, CBName: ci.Name, CBErr: ci.Error, CBRuntime: ci.Runtime, CBPanics: boom})
+				if boom {
+					panic(&CBPanicVal{id})
+				}
 			}))
 		}
 		if o.CBNil && !o.CB {
@@ -355,6 +362,14 @@ func doProvide(rt *RT, sc scopeAPI, op Op, out *OpOut) error {
 			popts = append(popts, dig.LocationForPC(0))
 		case "junk":
 			popts = append(popts, dig.LocationForPC(12345))
+		default:
+			// "bank<k>": the code pointer of bank literal k (what a caller
+			// wrapping functions with reflect.MakeFunc would pass)
+			var k int
+			if n, _ := fmt.Sscanf(o.LocPC, "bank%d", &k); n == 1 && k >= 0 && k < len(BankSpecs) {
+				inst := bankMake(rt, &Fn{ID: -1000 - k, Bank: k + 1})
+				popts = append(popts, dig.LocationForPC(reflect.ValueOf(inst).Pointer()))
+			}
 		}
 	}
 	pre := ""
@@ -393,8 +408,14 @@ func doDecorate(rt *RT, sc scopeAPI, op Op, out *OpOut) error {
 		}
 		if o.CB && op.F != nil {
 			id := op.F.ID
+			cbPanic := o.CBPanic
 			dopts = append(dopts, dig.WithDecoratorCallback(func(ci dig.CallbackInfo) {
-				rt.Log = append(rt.Log, Event{Kind: EvCB, Op: rt.curOp, Fn: id, CBName: ci.Name, CBErr: ci.Error, CBRuntime: ci.Runtime})
+				rt.cbCalls[id]++
+				boom := cbPanic && rt.cbCalls[id] == 1
+				rt.Log = append(rt.Log, Event{Kind: EvCB, Op: rt.curOp, Fn: id, CBName: ci.Name, CBErr: ci.Error, CBRuntime: ci.Runtime, CBPanics: boom})
+				if boom {
+					panic(&CBPanicVal{id})
+				}
 			}))
 		}
 	}
